@@ -79,7 +79,9 @@ func (tc *typechecker) checkIdentifier(ident *ast.Identifier, used bool) *typeIn
 	if isUpVar {
 		// TODO: decl can have type *ast.Import but indirectVars only allows identifiers.
 		identDecl, _ := decl.(*ast.Identifier)
-		tc.compilation.indirectVars[identDecl] = true
+		if identDecl != nil {
+			tc.compilation.indirectVars[identDecl] = true
+		}
 		upvar := ast.Upvar{Declaration: identDecl}
 		for _, fn := range tc.getNestedFuncs(ident.Name) {
 			add := true
